@@ -25,7 +25,9 @@ WORKERS = 4
 RULE = (
     "Hypothesis rule-based state machine over one long-lived process: requests are drawn from the repository's cases, "
     "examples and library scripts, generated programs, generated programs split over 1-3 library modules, sources with '# pytrapic:' directives, constexpr sources (two "
-    "programs with the same call text but different bodies), erroring sources, x option vectors given as fresh "
+    "programs with the same call text but different bodies; constexpr functions returning lists of 2-9 entries that are "
+    "looped over and indexed at run time, optionally through a helper constexpr whose body differs between otherwise "
+    "identical programs), erroring sources, x option vectors given as fresh "
     "dataclass objects, as dataclass objects shared across calls, and as dicts; rules: compile, compile again, compile "
     "the compact-toggled twin in between, compile an erroring source, compile with a shared options object. "
     "Invariants after every step: the result equals the result of the same (sources, option values) computed in a "
@@ -168,6 +170,7 @@ def fresh(srcs, optvals):
 
 
 FRESH_STATS = {"brand_new": 0, "second_hash_seed": 0}
+CX_SEEN = []
 FIRST = {"v": None}
 PROCESS_LOG = []
 BRAND_NEW_ENABLED = [True]
@@ -235,6 +238,30 @@ class History(RuleBasedStateMachine):
     @rule(target=reqs, i=st.integers(0, 60))
     def pick_fixed(self, i):
         return self.fixed[i % len(self.fixed)]
+
+    @rule(target=reqs, n=st.integers(2, 9), body=st.sampled_from(["[i * i + 1 for i in range(n)]", "[n - i for i in range(n)]", "[7] * n"]),
+          use=st.sampled_from(["loop-then-index", "index-then-loop", "index-twice", "loop"]), helper=st.sampled_from([None, "return 2", "return 5"]))
+    def pick_constexpr(self, n, body, use, helper):
+        # state the property names: the constexpr result cache.  Results that are mutable containers, used in
+        # several ways, and helper-dependent results whose helper differs between otherwise identical programs
+        L = [HDR.rstrip("\n")]
+        if helper:
+            L += ["@constexpr", "def scale():", f"    {helper}"]
+            body = body.replace("for i in", "* scale() for i in") if "for i in" in body else body + " + [scale()]"
+        L += ["@constexpr", "def table(n):", f"    return {body}", f"t = table({n})"]
+        idx = f"db.Setting = t[min(max(d0.Setting, 0), {n - 1})]"
+        loop = ["for v in t:", "    d1.Setting = v"]
+        L += {"loop-then-index": loop + [idx], "index-then-loop": [idx] + loop, "index-twice": [idx, idx.replace("d0", "d2")], "loop": loop}[use]
+        req = {"": "\n".join(L) + "\n"}
+        if req not in CX_SEEN and len(CX_SEEN) < 40:
+            CX_SEEN.append(req)
+        return req
+
+    @rule(i=st.integers(0, 1000), bits=st.sampled_from(VEC_BITS))
+    def compile_a_constexpr_request_of_this_process_again(self, i, bits):
+        # the cache the property names lives as long as the process, i.e. across the histories (examples) of a shard
+        if CX_SEEN:
+            self._compile(CX_SEEN[i % len(CX_SEEN)], bits & ~64, "fresh")
 
     @rule(target=reqs, c=programs.program_cases(programs.Cfg(max_funcs=2, loop_stmts=2, func_stmts=2), nenv=0))
     def pick_generated(self, c):
@@ -352,8 +379,8 @@ def run_shard(ctx):
     History.stats = ctx.stats
     BRAND_NEW_ENABLED[0] = ctx.shard < 2 or not ctx.quick()
     HASHSEEDS[1] = str(1 + ctx.hyp_seed % 4294967290)
-    n = ctx.scale(8, 30)
-    steps = ctx.scale(14, 40)
+    n = ctx.scale(12, 36)
+    steps = ctx.scale(16, 40)
     machine = hypothesis.seed(ctx.hyp_seed)(History)
     try:
         run_state_machine_as_test(machine, settings=settings(max_examples=n, stateful_step_count=steps, deadline=None, database=None,
